@@ -13,6 +13,7 @@ import (
 	"os"
 	"os/exec"
 	"path/filepath"
+	"sort"
 	"strings"
 	"sync"
 	"sync/atomic"
@@ -28,6 +29,7 @@ import (
 type caseT struct {
 	Sessions [][]string `json:"sessions"` // per session: the queries it runs, in order
 	Stress   bool       `json:"stress,omitempty"`
+	Special  string     `json:"special,omitempty"` // status-isolation | snapshot-aliasing
 }
 
 var engine *eng.E
@@ -55,8 +57,22 @@ func setup() {
 	s.MustExec("CREATE VIEW v1 AS SELECT a, COUNT(*) c FROM t1 GROUP BY a")
 }
 
+const (
+	qShowSess   = "SHOW STATUS LIKE 'Com_select'"
+	qShowGlobal = "SHOW GLOBAL STATUS LIKE 'Com_select'"
+	qShowAll    = "SHOW STATUS"
+	qShowGAll   = "SHOW GLOBAL STATUS"
+	qShowProcs  = "SHOW PROCESSLIST"
+)
+
+func isRegistryQuery(q string) bool { return strings.HasPrefix(q, "SHOW ") }
+func isSelect(q string) bool        { return strings.HasPrefix(q, "SELECT") }
+
 func genQuery(r *lib.RNG) string {
 	p := r.Range(0, 8)
+	if r.Chance(1, 5) { // registry readers: status variables (session / global) and the process list
+		return lib.Pick(r, []string{qShowSess, qShowSess, qShowGlobal, qShowAll, qShowGAll, qShowProcs, qShowProcs})
+	}
 	switch r.Intn(14) {
 	case 0:
 		return fmt.Sprintf("SELECT id, a, b FROM t1 WHERE a = %d ORDER BY id", p%7)
@@ -169,7 +185,198 @@ func counterStress(c *lib.Ctx, cs caseT) {
 	}
 }
 
+// checkRegistry: what a registry-reading statement may return while other sessions run.
+func checkRegistry(q string, r eng.Result, connID uint32, nsel, g0, totalSel uint64) string {
+	if r.Err != nil || r.Panic != "" {
+		return "failed: " + canon(r)
+	}
+	find := func(name string) (uint64, bool) {
+		for _, row := range r.Rows {
+			if fmt.Sprint(row[0]) == name {
+				var v uint64
+				if _, err := fmt.Sscan(fmt.Sprint(row[1]), &v); err != nil {
+					return 0, false
+				}
+				return v, true
+			}
+		}
+		return 0, false
+	}
+	switch q {
+	case qShowSess, qShowAll:
+		// session scope: the session's own Com_select, whatever other sessions do
+		if v, ok := find("Com_select"); !ok || v != nsel {
+			return fmt.Sprintf("session-scope Com_select = %d (found %v), this session has run %d SELECTs", v, ok, nsel)
+		}
+	case qShowGlobal, qShowGAll:
+		// global scope: between the start value plus this session's SELECTs and the start value plus all SELECTs of the batch
+		if v, ok := find("Com_select"); !ok || v < g0+nsel || v > g0+totalSel {
+			return fmt.Sprintf("global Com_select = %d (found %v), must lie in [%d, %d]", v, ok, g0+nsel, g0+totalSel)
+		}
+	case qShowProcs:
+		own := false
+		for _, row := range r.Rows {
+			if fmt.Sprint(row[0]) == fmt.Sprint(connID) {
+				own = true
+			}
+		}
+		if !own {
+			return fmt.Sprintf("own connection %d not listed in %d rows", connID, len(r.Rows))
+		}
+	}
+	if q == qShowAll || q == qShowGAll {
+		if v, ok := find("Threads_connected"); !ok || v == 0 {
+			return "Threads_connected missing or zero while this session is connected"
+		}
+	}
+	return ""
+}
+
+// statusIsolation (sequential, deterministic): a session's SHOW STATUS must not leak its values into the global
+// registry or into another session.
+func statusIsolation(c *lib.Ctx, cs caseT) {
+	c.Count("status_isolation")
+	id := c.CaseNoModel(cs, "status-isolation")
+	c.PredChecked()
+	pl := engine.Engine.ProcessList
+	s1, s2, s3 := engine.Session(), engine.Session(), engine.Session()
+	for _, s := range []*eng.S{s1, s2, s3} {
+		pl.AddConnection(s.Ctx.Session.ID(), "h")
+		pl.ConnectionReady(s.Ctx.Session)
+	}
+	defer func() {
+		for _, s := range []*eng.S{s1, s2, s3} {
+			pl.RemoveConnection(s.Ctx.Session.ID())
+		}
+	}()
+	g0 := statusVar("Com_select")
+	for i := 0; i < 3; i++ {
+		queryVia(s1, "SELECT a FROM t1 WHERE id = 1")
+	}
+	for i := 0; i < 5; i++ {
+		queryVia(s2, "SELECT a FROM t1 WHERE id = 2")
+	}
+	val := func(s *eng.S, q string) string {
+		r, _ := queryVia(s, q)
+		for _, row := range r.Rows {
+			if fmt.Sprint(row[0]) == "Com_select" {
+				return fmt.Sprint(row[1])
+			}
+		}
+		return "missing: " + canon(r)
+	}
+	steps := []struct {
+		s    *eng.S
+		q    string
+		want uint64
+		who  string
+	}{
+		{s1, qShowAll, 3, "session 1 (3 SELECTs) SHOW STATUS"},
+		{s3, qShowGAll, g0 + 8, "session 3 SHOW GLOBAL STATUS after session 1's SHOW STATUS"},
+		{s2, qShowSess, 5, "session 2 (5 SELECTs) SHOW STATUS LIKE"},
+		{s1, qShowGlobal, g0 + 8, "session 1 SHOW GLOBAL STATUS LIKE"},
+		{s3, qShowAll, 0, "session 3 (0 SELECTs) SHOW STATUS"},
+		{s2, qShowGAll, g0 + 8, "session 2 SHOW GLOBAL STATUS"},
+		{s1, qShowSess, 3, "session 1 SHOW STATUS LIKE again"},
+	}
+	for _, st := range steps {
+		if got := val(st.s, st.q); got != fmt.Sprint(st.want) {
+			c.PredFail(id, "show-status-scopes-mixed", fmt.Sprintf("%s: Com_select = %s, expected %d (global start value %d, sessions ran 3 / 5 / 0 SELECTs)", st.who, got, st.want, g0), cs)
+			return
+		}
+	}
+	if got := statusVar("Com_select"); got != g0+8 {
+		c.PredFail(id, "show-status-scopes-mixed", fmt.Sprintf("global Com_select = %d after the SHOW statements, expected %d", got, g0+8), cs)
+	}
+}
+
+func progressText(ps []sql.Process) string {
+	var out []string
+	for _, p := range ps {
+		var ts []string
+		for tn, tp := range p.Progress {
+			var parts []string
+			for pn, pp := range tp.PartitionsProgress {
+				parts = append(parts, fmt.Sprintf("%s=%d/%d", pn, pp.Done, pp.Total))
+			}
+			sort.Strings(parts)
+			ts = append(ts, fmt.Sprintf("%s:%d/%d%v", tn, tp.Done, tp.Total, parts))
+		}
+		sort.Strings(ts)
+		out = append(out, fmt.Sprintf("%d %s %q pid%d %v", p.Connection, p.Command, p.Query, p.QueryPid, ts))
+	}
+	sort.Strings(out)
+	return strings.Join(out, "; ")
+}
+
+// snapshotAliasing: what Processes() returned must not change afterwards, and reading it while the query makes
+// progress must not race (-race observes the second part).
+func snapshotAliasing(c *lib.Ctx, cs caseT) {
+	c.Count("snapshot_aliasing")
+	id := c.CaseNoModel(cs, "snapshot-aliasing")
+	c.PredChecked()
+	pl := engine.Engine.ProcessList
+	s := engine.Session()
+	cid := s.Ctx.Session.ID()
+	pl.AddConnection(cid, "h")
+	pl.ConnectionReady(s.Ctx.Session)
+	pid := nextPid.Add(1)
+	ctx := sql.NewContext(context.Background(), sql.WithSession(s.Ctx.Session), sql.WithPid(pid), sql.WithProcessList(pl))
+	ctx, err := pl.BeginQuery(ctx, "scan")
+	if err != nil {
+		c.PredFail(id, "begin-query-failed", err.Error(), cs)
+		return
+	}
+	pl.AddTableProgress(pid, "t", 10)
+	pl.AddPartitionProgress(pid, "t", "p0", 5)
+	pl.AddPartitionProgress(pid, "t", "p1", 5)
+	pl.UpdateTableProgress(pid, "t", 1)
+	snap := pl.Processes()
+	before := progressText(snap)
+	pl.UpdateTableProgress(pid, "t", 3)
+	pl.UpdatePartitionProgress(pid, "t", "p0", 2)
+	pl.AddPartitionProgress(pid, "t", "p2", 7)
+	pl.RemovePartitionProgress(pid, "t", "p1")
+	pl.AddTableProgress(pid, "u", 4)
+	if after := progressText(snap); after != before {
+		c.PredFail(id, "processes-snapshot-aliases-live-progress", fmt.Sprintf("a Processes() snapshot changed after it was taken: %q became %q", before, after), cs)
+	}
+	// readers of snapshots against a writer of progress
+	var wg sync.WaitGroup
+	var stop atomic.Bool
+	for g := 0; g < 3; g++ {
+		wg.Add(1)
+		go func() {
+			defer wg.Done()
+			for !stop.Load() {
+				_ = progressText(pl.Processes())
+			}
+		}()
+	}
+	for i := 0; i < 3000; i++ {
+		pn := fmt.Sprintf("p%d", i%7)
+		pl.AddPartitionProgress(pid, "t", pn, int64(i))
+		pl.UpdatePartitionProgress(pid, "t", pn, 1)
+		pl.UpdateTableProgress(pid, "t", 1)
+		if i%3 == 0 {
+			pl.RemovePartitionProgress(pid, "t", pn)
+		}
+	}
+	stop.Store(true)
+	wg.Wait()
+	pl.EndQuery(ctx)
+	pl.RemoveConnection(cid)
+}
+
 func run(c *lib.Ctx, cs caseT) {
+	switch cs.Special {
+	case "status-isolation":
+		statusIsolation(c, cs)
+		return
+	case "snapshot-aliasing":
+		snapshotAliasing(c, cs)
+		return
+	}
 	if cs.Stress {
 		counterStress(c, cs)
 		return
@@ -177,14 +384,23 @@ func run(c *lib.Ctx, cs caseT) {
 	// sequential baseline: every distinct query once, alone
 	for _, qs := range cs.Sessions {
 		for _, q := range qs {
-			if _, ok := baseline[q]; !ok {
+			if _, ok := baseline[q]; !ok && !isRegistryQuery(q) {
 				s := engine.Session()
 				baseline[q] = canon(s.Query(q))
 			}
 		}
 	}
 	pl := engine.Engine.ProcessList
-	base := [3]uint64{statusVar("Threads_connected"), statusVar("Threads_running"), statusVar("Questions")}
+	base := [4]uint64{statusVar("Threads_connected"), statusVar("Threads_running"), statusVar("Questions"), statusVar("Com_select")}
+	totalSel := 0
+	for _, qs := range cs.Sessions {
+		for _, q := range qs {
+			if isSelect(q) {
+				totalSel++
+			}
+		}
+	}
+	var regFails []string
 	type diff struct {
 		sess, idx   int
 		q, got, exp string
@@ -205,12 +421,20 @@ func run(c *lib.Ctx, cs caseT) {
 			<-start
 			pl.AddConnection(id, "h")
 			pl.ConnectionReady(s.Ctx.Session)
+			nsel := uint64(0) // SELECTs this session has run so far = its session-scope Com_select
 			for qi, q := range qs {
 				r, berr := queryVia(s, q)
 				got := canon(r)
+				if isSelect(q) {
+					nsel++
+				}
 				mu.Lock()
 				if berr != nil {
 					beginErrs = append(beginErrs, berr.Error())
+				} else if isRegistryQuery(q) {
+					if msg := checkRegistry(q, r, id, nsel, base[3], uint64(totalSel)); msg != "" {
+						regFails = append(regFails, fmt.Sprintf("session %d query %d %q: %s", si, qi, q, msg))
+					}
 				} else if got != baseline[q] {
 					diffs = append(diffs, diff{si, qi, q, got, baseline[q]})
 				}
@@ -223,6 +447,7 @@ func run(c *lib.Ctx, cs caseT) {
 	wg.Wait()
 	procs := pl.Processes()
 	tcv, trv, qv := statusVar("Threads_connected")-base[0], statusVar("Threads_running")-base[1], statusVar("Questions")-base[2]
+	selv := statusVar("Com_select") - base[3]
 
 	c.Count(fmt.Sprintf("sessions_%d", len(cs.Sessions)))
 	c.Count(fmt.Sprintf("queries_%03d-%03d", total/50*50, total/50*50+49))
@@ -244,6 +469,13 @@ func run(c *lib.Ctx, cs caseT) {
 	}
 	if len(procs) != 0 || tcv != 0 || trv != 0 {
 		c.PredFail(id, "registry-inconsistent-at-quiescence", fmt.Sprintf("after all sessions finished: %d process-list entries, Threads_connected delta %d, Threads_running delta %d", len(procs), tcv, trv), cs)
+	}
+	for _, m := range regFails {
+		c.PredFail(id, "registry-read-inconsistent/"+strings.SplitN(strings.SplitN(m, "\"", 3)[1], " LIKE", 2)[0], m, cs)
+		break
+	}
+	if selv != uint64(totalSel) {
+		c.PredFail(id, "com_select-counter-wrong-at-quiescence", fmt.Sprintf("global Com_select moved by %d for %d SELECTs", selv, totalSel), cs)
 	}
 	if qv != uint64(total) {
 		c.PredFail(id, "questions-counter-lost-updates", fmt.Sprintf("Questions moved by %d for %d queries", qv, total), cs)
@@ -287,7 +519,7 @@ func child() {
 		c.CaseType = "C36.case"
 		c.MismatchFn = "C36.mismatches"
 		c.SetRule("each case: 2-8 goroutine sessions x 3-20 read-only queries (14 templates: point/range filters, joins, GROUP BY, IN/EXISTS/scalar " +
-			"subqueries, DISTINCT, view, UNION, window, JSON/decimal functions, information_schema) over a fixed database (3 tables + 1 view), two " +
+			"subqueries, DISTINCT, view, UNION, window, JSON/decimal functions, information_schema; one in five is a registry reader: SHOW [GLOBAL] STATUS [LIKE 'Com_select'] checked against the session's own SELECT count / the global bounds, SHOW PROCESSLIST) over a fixed database (3 tables + 1 view), two " +
 			"thirds drawn from a shared pool so that sessions run the same text at the same time; every session registers with the engine's " +
 			"ProcessList as the server does; results compared with the same query run alone; driver built with -race. distinct = distinct schedules of query texts.")
 		if c.ReplayFile != "" {
@@ -302,7 +534,15 @@ func child() {
 			{"SELECT table_name FROM information_schema.tables WHERE table_schema = 'db' ORDER BY table_name"}}},
 			// known finding: concurrent information_schema queries race on the shared table object (AssignCatalog)
 			{Sessions: [][]string{infoQ(12), infoQ(12), infoQ(12), infoQ(12)}},
-			{Stress: true}}
+			{Stress: true},
+			{Special: "status-isolation"},
+			{Special: "snapshot-aliasing"},
+			// registry readers against scans: SHOW STATUS from several sessions at once, SHOW PROCESSLIST during table scans
+			{Sessions: [][]string{{qShowAll, qShowAll, qShowSess, qShowAll, qShowAll, qShowAll}, {qShowAll, qShowGAll, qShowAll, qShowAll, qShowGlobal, qShowAll},
+				{"SELECT a, COUNT(*), SUM(id) FROM t1 WHERE id > 5 GROUP BY a ORDER BY a", qShowAll, "SELECT id, a, b FROM t1 WHERE a = 3 ORDER BY id", qShowSess, qShowGAll}}},
+			{Sessions: [][]string{{qShowProcs, qShowProcs, qShowProcs, qShowProcs, qShowProcs, qShowProcs, qShowProcs, qShowProcs},
+				{"SELECT t1.id, t2.v FROM t1 JOIN t2 ON t1.id = t2.t1_id WHERE t2.v > 1 ORDER BY t1.id, t2.id", "SELECT id, a, b FROM t1 WHERE a = 3 ORDER BY id", "SELECT DISTINCT b FROM t1 WHERE a <> 2 ORDER BY b", "SELECT k, d * 2, JSON_EXTRACT(j, '$.x') FROM t3 WHERE d > 1 ORDER BY k"},
+				{"SELECT a, COUNT(*), SUM(id) FROM t1 WHERE id > 5 GROUP BY a ORDER BY a", "SELECT id, a, b FROM t1 WHERE a = 1 ORDER BY id", qShowProcs, "SELECT id, a, b FROM t1 WHERE a = 2 ORDER BY id"}}}}
 		for _, cs := range corpus {
 			run(c, cs)
 		}
@@ -330,10 +570,30 @@ func main() {
 	_ = os.MkdirAll(out, 0o755)
 	cmd := exec.Command(os.Args[0], os.Args[1:]...)
 	cmd.Env = append(os.Environ(), "C36_CHILD=1", "GORACE=log_path="+filepath.Join(out, "race")+" halt_on_error=0 exitcode=0")
-	cmd.Stdout, cmd.Stderr = os.Stdout, os.Stderr
+	var errBuf strings.Builder
+	cmd.Stdout, cmd.Stderr = os.Stdout, io.MultiWriter(os.Stderr, &errBuf)
 	if err := cmd.Run(); err != nil {
-		fmt.Fprintln(os.Stderr, "child failed:", err)
-		os.Exit(4)
+		// the Go runtime kills the process on e.g. "fatal error: concurrent map writes": that is an observation about the
+		// implementation, reported as a predicate failure (no per-case data survives)
+		msg := errBuf.String()
+		sig := "engine-crashed"
+		for _, ln := range strings.Split(msg, "\n") {
+			if strings.HasPrefix(ln, "fatal error:") || strings.HasPrefix(ln, "panic:") {
+				sig = "engine-crashed/" + strings.TrimSpace(ln)
+				break
+			}
+		}
+		if len(msg) > 3000 {
+			msg = msg[:3000]
+		}
+		summ := map[string]interface{}{"property": "C36", "seed": 0, "evaluations": 0, "distinct_nontrivial": 0, "rule": "child process crashed",
+			"samples": []interface{}{}, "distribution": map[string]int{"child_crashed": 1}, "predicate_checked": 1, "shards": []string{}, "driver_panics": 0,
+			"predicate_failures": []interface{}{map[string]interface{}{"case_id": 0, "signature": sig, "what": "the concurrent run crashed (" + err.Error() + "): " + msg,
+				"replay": map[string]interface{}{"note": "re-run the whole check"}}}}
+		nb, _ := json.MarshalIndent(summ, "", " ")
+		_ = os.WriteFile(filepath.Join(out, "summary.json"), nb, 0o644)
+		_ = os.WriteFile(filepath.Join(out, "replays.json"), []byte("[]"), 0o644)
+		return
 	}
 	logs, _ := filepath.Glob(filepath.Join(out, "race.*"))
 	if len(logs) == 0 {
